@@ -109,34 +109,39 @@ def write_datadir(path, coin, placements, header_only=(), xor_key=None, names=No
 
 
 def xor_file(fname, key):
-    """XORs the file in place with the key repeating from offset 0, keeping holes sparse."""
+    """XORs the file in place with the key repeating from offset 0, keeping holes sparse: only data extents
+    (SEEK_DATA / SEEK_HOLE) are rewritten. Holes read as zeros and would have to become key bytes; they may stay
+    holes because the generator guarantees that no indexed block overlaps a hole. Works on the raw descriptor
+    (pread/pwrite) so that lseek() cannot confuse a buffered file object."""
     klen = len(key)
     size = os.path.getsize(fname)
     chunk = 1 << 20
-    zero = bytes(chunk)
-    with open(fname, "r+b") as f:
-        # iterate over data extents only (SEEK_DATA / SEEK_HOLE) so sparse multi-GiB files stay cheap;
-        # holes read as zeros and must become key bytes, so they are only allowed to stay holes if never read:
-        # the generator guarantees that indexed blocks never overlap holes.
+    fd = os.open(fname, os.O_RDWR)
+    try:
         pos = 0
         while pos < size:
             try:
-                start = os.lseek(f.fileno(), pos, os.SEEK_DATA)
+                start = os.lseek(fd, pos, os.SEEK_DATA)
             except OSError:
                 break
-            end = os.lseek(f.fileno(), start, os.SEEK_HOLE)
+            end = min(os.lseek(fd, start, os.SEEK_HOLE), size)
             p = start
             while p < end:
                 n = min(chunk, end - p)
-                f.seek(p)
-                buf = f.read(n)
+                buf = os.pread(fd, n, p)
+                n = len(buf)
+                if n == 0:
+                    break
                 off = p % klen
                 k = (key * (n // klen + 2))[off:off + n]
                 out = (int.from_bytes(buf, "little") ^ int.from_bytes(k, "little")).to_bytes(n, "little")
-                f.seek(p)
-                f.write(out)
+                os.pwrite(fd, out, p)
                 p += n
-            pos = end
+            pos = max(end, pos + 1)
+    finally:
+        os.close(fd)
+    if os.path.getsize(fname) != size:
+        raise Inconclusive("xor_file changed the size of %s" % fname)
 
 
 def write_index(path, pairs, write_buffer=4 << 20, sessions=1, compact=False, shuffle_rng=None):
